@@ -106,6 +106,9 @@ def add_guard(cond):
     _orig_ignore_errors = _ignore_errors
     _orig_ONE = LinComb.ONE
     
+    from pysnark.boolean import LinCombBool
+    if isinstance(cond,LinCombBool): cond = cond.lc
+    
     if isinstance(cond,LinComb):
         if not ignore_errors() and (cond.value!=0 and cond.value!=1):
             raise RuntimeError("incorrect guard value " + str(cond))
